@@ -311,6 +311,84 @@ def output(chk, thorough):
     chk.stratum("output")
 
 
+def validation(chk, thorough):
+    """Validation.tla: constructor acceptance rules, in order; every class combination enumerated by TLC"""
+    m = impl.pb()
+    U = m.Unit
+    chk.tlc(core.run_tlc("Validation", "SPECIFICATION Spec\nINVARIANT V_RejectedBuildsNothing\nINVARIANT V_AcceptedIffNoRuleViolated\n"
+                         "INVARIANT V_ErrorIsAViolatedRule\nINVARIANT V_NoNonPositiveBC\n"), "Validation")
+    gen = core.run_tlc("Gen_Validation", "SPECIFICATION Spec\nINVARIANT Emit\n", workers=1, tags=["CASE"])
+    cases = gen.out("CASE")
+    chk.tlc(gen, "Gen_Validation")
+    P = m.DragDataPoint
+    tables = {"empty": lambda: [], "points": lambda: [P(0.0, 0.3), P(1.0, 0.4), P(2.0, 0.3)],
+              "dicts": lambda: [{"Mach": 0.0, "CD": 0.3}, {"Mach": 1.0, "CD": 0.4}, {"Mach": 2.0, "CD": 0.3}],
+              "mixed": lambda: [P(0.0, 0.3), {"Mach": 1.0, "CD": 0.4}, P(2.0, 0.3)],
+              "dict_without_CD": lambda: [{"Mach": 0.0, "CD": 0.3}, {"Mach": 1.0}, {"Mach": 2.0, "CD": 0.3}],
+              "item_not_a_point": lambda: [P(0.0, 0.3), 7, P(2.0, 0.3)]}
+    sign = {"neg": [-0.3, -1], "zero": [0.0, 0], "pos": [0.3, 1]}
+    clicks = {"absent": [None], "text": ["0.1", "mil"], "nonpositive": [0.0, U.Mil(0), U.MOA(-0.25), -1],
+              "number": [0.1, 2], "angle": [U.Mil(0.1), U.MOA(0.25), U.CmPer100m(1)]}
+    for ci, c in enumerate(cases):
+        a, want = c["args"], c["outcome"]
+        variants = []
+        if a["c"] == "BCPoint":
+            for bc in sign[a["bc"]]:
+                for mach in ([None] if a["mach"] == "absent" else [0.8, 2]):
+                    for v in ([None] if a["v"] == "absent" else [U.FPS(2000), 600.0, U.MPS(700)]):
+                        variants.append((lambda bc=bc, mach=mach, v=v: m.BCPoint(bc, mach, v), (bc, mach, repr(v))))
+        elif a["c"] == "DragModel":
+            for bc in sign[a["bc"]]:
+                for w, d in (((0, 0),) if (a["w"], a["d"]) == ("zero", "zero") else
+                             [(U.Grain(168) if a["w"] == "pos" else 0, U.Inch(0.308) if a["d"] == "pos" else 0),
+                              (168 if a["w"] == "pos" else U.Grain(0), 0.308 if a["d"] == "pos" else U.Inch(0))]):
+                    variants.append((lambda bc=bc, w=w, d=d: m.DragModel(bc, tables[a["table"]](), w, d), (bc, a["table"], repr(w), repr(d))))
+        elif a["c"] == "Sight":
+            planes = {"FFP": ["FFP"], "SFP": ["SFP"], "LWIR": ["LWIR"], "other": ["ffp", "", None, "MOA"]}[a["plane"]]
+            for pl in planes:
+                for sc in ([None] if a["scale"] == "absent" else [U.Meter(100), 100]):
+                    for h in clicks[a["h"]][:2]:
+                        for v in clicks[a["v"]][-2:]:
+                            variants.append((lambda pl=pl, sc=sc, h=h, v=v: m.Sight(pl, sc, h, v), (pl, repr(sc), repr(h), repr(v))))
+        else:
+            w, d = (U.Grain(168) if a["w"] == "pos" else 0), (U.Inch(0.308) if a["d"] == "pos" else 0)
+            variants.append((lambda: m.DragModelMultiBC([m.BCPoint(0.3, 2.0), m.BCPoint(0.28, 1.0)], tables[a["table"]](), w, d), (a["table"], repr(w), repr(d))))
+        for fn, what in variants:
+            core.reset_world()
+            o = impl.outcome(fn)
+            got = "ok" if o[0] == "ok" else o[1]
+            chk.count(1, ("validation", ci, what))
+            chk.stratum("validation_" + a["c"])
+            chk.stratum("validation_rejected" if want != "ok" else "validation_accepted")
+            k = {"module": "Validation", "constructor": a["c"], "want": want}
+            if got != want:
+                chk.violation("X.Validation.Outcome", k, {"case": c, "arguments": what, "got": got, "text": str(o[2])[:120] if o[0] == "exc" else ""})
+                continue
+            if want != "ok":
+                continue
+            obj, dv = o[1], c["derived"]
+            if a["c"] == "BCPoint":
+                wantm = what[1] if dv["mach_from"] == "mach" else None
+                if wantm is not None and obj.Mach != wantm:
+                    chk.violation("X.Validation.Derived", k, {"case": c, "arguments": what, "got": obj.Mach})
+                if dv["mach_from"] == "velocity" and not (0.3 < obj.Mach < 3.0):
+                    chk.violation("X.Validation.Derived", k, {"case": c, "arguments": what, "got": obj.Mach})
+            elif a["c"] == "DragModel":
+                if hasattr(obj, "form_factor") != dv["has_form_factor"] or hasattr(obj, "sectional_density") != dv["has_form_factor"]:
+                    chk.violation("X.Validation.Derived", k, {"case": c, "arguments": what})
+                if not all(isinstance(p_, P) for p_ in obj.drag_table) or len(obj.drag_table) != 3:
+                    chk.violation("X.Validation.Derived", k, {"case": c, "arguments": what, "table": repr(obj.drag_table)[:200]})
+            elif a["c"] == "Sight":
+                if dv["scale_default"] and obj.scale_factor.raw_value <= 0:
+                    chk.violation("X.Validation.Derived", k, {"case": c, "arguments": what})
+            else:
+                sd = 168.0 / 0.308 ** 2 / 7000.0
+                if abs(obj.BC - (sd if dv["bc_is_sectional_density"] else 1.0)) > 1e-12:
+                    chk.violation("X.Validation.Derived", k, {"case": c, "arguments": what, "got": obj.BC})
+    chk.traces += len(cases)
+    core.reset_world()
+
+
 def run(chk: core.Check, replay=None) -> None:
     core.use_repo(hooks=False)
     core.reset_world()
@@ -320,9 +398,10 @@ def run(chk: core.Check, replay=None) -> None:
     config_load(chk, thorough)
     vectors(chk, thorough)
     output(chk, thorough)
-    chk.require_strata(["output", "output_Assign", "output_LoadPreset", "atmo_SetHumidity", "atmo_Query", "atmo_rejected", "results_flag_names", "results_zeros", "results_no_extra",
+    validation(chk, thorough)
+    chk.require_strata(["validation_BCPoint", "validation_DragModel", "validation_Sight", "validation_MultiBC", "validation_rejected", "validation_accepted", "output", "output_Assign", "output_LoadPreset", "atmo_SetHumidity", "atmo_Query", "atmo_rejected", "results_flag_names", "results_zeros", "results_no_extra",
                         "results_no_zero_rows", "cfgload_ValueError", "cfgload_searched", "cfgload_explicit-file",
                         "cfgload_arguments-applied", "vectors"])
-    chk.rule.append("extra specification modules beyond the listed properties (Atmo, Results, ConfigLoad, VectorAlg, Output), each with TLC design "
+    chk.rule.append("extra specification modules beyond the listed properties (Atmo, Results, ConfigLoad, VectorAlg, Output, Validation), each with TLC design "
                     "check and exhaustive / simulated replay into the real code")
-    chk.sample({"modules": ["Atmo", "Results", "ConfigLoad", "VectorAlg", "Output"]})
+    chk.sample({"modules": ["Atmo", "Results", "ConfigLoad", "VectorAlg", "Output", "Validation"]})
